@@ -41,6 +41,9 @@ def check(chk, repo):
     k = repo.constants.get("MAX_ARC_WEIGHT")
     rep.fn("MONO-K", repo.need_method("OPF", "__init__"), f"MAX_ARC_WEIGHT = {k!r} is a positive constant",
            isinstance(k, (int, float)) and k > 0, "the log variants are K*log(1 + .): K must be > 0")
+    # weights read back from a distance file must keep their order type: no rounding on the way to disk
+    from .c10 import check_savetxt_format, distance_file_writer
+    check_savetxt_format(rep, distance_file_writer(repo), "MONO-file")
     chk.undecided += ["permutation invariance itself (needs uniqueness of the optimum-path forest for tie-free data)"]
     chk.assumptions += ["strict monotonicity is over the reals; distinct distances that round to the same float are "
                         "outside the property's tie-free premise"]
